@@ -218,6 +218,26 @@ func (g *QGen) GenSelectLoose(from []string) Query {
 		q.Clauses = append(q.Clauses, g.GenClauseMixed(fmt.Sprintf("c%d", i), ClauseOpts{}))
 	}
 	q.Clauses = g.GenOptionalize(q.Clauses, 25)
+	if g.maybe(25, "boundalias") {
+		// a clause bounded by bindings: "id"@[?lo,?hi], with bindings that hold times,
+		// other values, or that no clause provides
+		names := append(AllBindings(q.Clauses), "?nolo", "?nohi")
+		i := gen.Uniform(g.T, len(q.Clauses), "baclause")
+		b := &Bound{ID: gen.Pick(g.T, g.U.PredIDs, "baid")}
+		switch gen.Uniform(g.T, 3, "basides") {
+		case 0:
+			b.LoB = gen.Pick(g.T, names, "balo")
+		case 1:
+			b.HiB = gen.Pick(g.T, names, "bahi")
+		default:
+			b.LoB, b.HiB = gen.Pick(g.T, names, "balo"), gen.Pick(g.T, names, "bahi")
+		}
+		if g.maybe(50, "baobj") {
+			q.Clauses[i].O = OPos{Bound: b}
+		} else {
+			q.Clauses[i].P = PPos{Bound: b}
+		}
+	}
 	all := AllBindings(q.Clauses)
 	if len(all) == 0 {
 		all = []string{"?none"}
